@@ -907,7 +907,9 @@ def gen_yield_shape(rng):
 # ---------------------------------------------------------------------------
 # end-of-input shapes (C17): `end` in match, case and wait positions, after optional/loop, inside try
 # ---------------------------------------------------------------------------
-def gen_eof_shape(rng):
+def gen_eof_shape(rng, reading_safe=False):
+    """reading_safe: leave out the shape that ends the program in an open-ended match (known finding C01: a program that ends by
+    lookahead never reports DONE on the byte behind it) - it is for the end() sweep of the binaries only"""
     lit = lambda: ("lit", bytes(rng.choice(b"abxyz:;=") for _ in range(rng.randint(1, 3))))
     outs = [{"type": "int", "name": "n0", "default": None}, {"type": "str", "name": "s0", "size": 8, "null": True, "default": None},
             {"type": "enum", "name": "en", "values": ["EA", "EB", "EC"]}]
@@ -920,7 +922,26 @@ def gen_eof_shape(rng):
     fin = lambda: rng.choice([[], [("finish", rng.choice([None, "F0", "F1"]))]])
     END = ("end",)
     k = rng.choice(["lit_end", "optional_end", "loop_case_end", "try_end", "wait_end", "case_else_end", "foreach_end", "end_only", "regex_end", "end_in_case_with_data",
-                    "case_inv_in_try", "end_then_handler"])
+                    "case_inv_in_try", "end_then_handler", "try_wild_catch_end", "case_wild_else_end"] + ([] if reading_safe else ["wait_regex_last"]))
+    if k == "wait_regex_last":
+        # a wait on an open-ended regex is the last thing the parser does: end() right behind a complete match is DONE
+        c1, c2 = rng.choice(b"abxy"), rng.choice(b"abxy")
+        w = ("wait", rng.choice([("re", ("seq", [("c", c1), ("plus", ("c", c2))])), ("re", ("plus", ("cls", "\\d"))),
+                                 ("concat", [("lit", b"id="), ("re", ("plus", ("cls", "\\d")))])]))
+        body = rng.choice([[w], [("match", a), w], [("try", [("match", a), w], ["nomatch"], [act()])]])
+        p = {"outs": outs, "hooks": ["hk"], "finish_codes": fcodes, "yield_codes": [], "body": body}
+        return p, pr_prog(p)
+    if k == "try_wild_catch_end":
+        # the end of input where a wildcard expects its byte goes to the handler like any other mismatch
+        wild = ("re", rng.choice([("any",), ("seq", [("any",), ("any",)]), ("plus", ("any",))]))
+        body = [("try", [("match", a), ("match", wild), ("match", b)], rng.choice([None, ["nomatch"]]), [("match", END), act()])] + fin()
+        p = {"outs": outs, "hooks": ["hk"], "finish_codes": fcodes, "yield_codes": [], "body": body}
+        return p, pr_prog(p)
+    if k == "case_wild_else_end":
+        wild = ("re", rng.choice([("seq", [("any",), ("any",)]), ("any",)]))
+        body = [("match", a), ("case", [([wild], [act()]), (["else"], [("match", END), act()])])] + fin()
+        p = {"outs": outs, "hooks": ["hk"], "finish_codes": fcodes, "yield_codes": [], "body": body}
+        return p, pr_prog(p)
     if k == "case_inv_in_try":
         sep = rng.choice(b",;")
         lab = ("re", ("seq", [("plus", ("set", [(44, 44), (59, 59)], True)), ("c", sep)]))
@@ -935,6 +956,10 @@ def gen_eof_shape(rng):
         return p, pr_prog(p)
     if k == "lit_end":
         body = [("match", a), ("match", END)] + [act()] * rng.randint(0, 2) + fin()
+        if not reading_safe and rng.random() < 0.3:
+            # something that could go on behind the end pattern (it cannot: the input is over) - the program is complete there
+            # (end() sweep of the binaries only: the reading has no rule yet for "the rest can finish without input")
+            body = [("match", a), ("match", END), act(), ("optional", [("match", b), act()])]
     elif k == "optional_end":
         body = [("match", a), ("optional", [("match", b)]), ("match", END), act()] + fin()
     elif k == "loop_case_end":
